@@ -434,6 +434,27 @@ fn inject(class: &str, base: &[u8], rng: &mut Rng) -> Option<Vec<u8>> {
             if inner.len() >= 3 && inner[0] == 0x82 && inner[1] == 0x01 && inner[2] >> 5 == 0 && (nt == 6 || nt == 10) { return None; }
             v[ch[0].0] = nt;
         }
+        "indef-missing" => { // the block written as an indefinite-length array (which the decoder takes) with its last one or two items missing
+            let drop = 1 + rng.below(2) as usize;
+            if n <= drop { return None; }
+            let mut blk = vec![0x9fu8];
+            blk.extend_from_slice(&base[ch[0].0..ch[n - drop - 1].1]);
+            blk.push(0xff);
+            v.splice(r.0..r.1, blk);
+        }
+        "btsd-map" => { // a map keyed by field position or field name where the data of a known extension block must be an array / integer
+            if primary { return None; }
+            let bt = cborx::read_uint(base, ch[0])?;
+            let bad: Vec<Vec<u8>> = match bt {
+                10 => vec![vec![0xa2, 0x00, 0x18, 0x20, 0x01, 0x00], { let mut m = vec![0xa2, 0x65]; m.extend_from_slice(b"limit"); m.extend_from_slice(&[0x18, 0x20, 0x65]); m.extend_from_slice(b"count"); m.push(0x00); m },
+                           vec![0xa2, 0x61, b'0', 0x05, 0x61, b'1', 0x01], vec![0xa1, 0x00, 0x05], vec![0xbf, 0x00, 0x05, 0x01, 0x01, 0xff]],
+                7 => vec![vec![0xa1, 0x00, 0x05], vec![0xa1, 0x61, b'0', 0x05], vec![0x81, 0x05]],
+                6 => vec![vec![0xa2, 0x00, 0x01, 0x01, 0x00], vec![0xa2, 0x00, 0x02, 0x01, 0x82, 0x01, 0x01], vec![0xa1, 0x01, 0x00]],
+                _ => return None };
+            let b = rng.pick(&bad).clone();
+            let mut f = cbor_head(2, b.len() as u64); f.extend_from_slice(&b);
+            v.splice(ch[4].0..ch[4].1, f);
+        }
         "no-break" => { v.pop(); }
         "trailing-byte" => { v.push(*rng.pick(&[0x00u8, 0xff, 0x80, 0xf6])); }
         _ => return None,
@@ -441,7 +462,7 @@ fn inject(class: &str, base: &[u8], rng: &mut Rng) -> Option<Vec<u8>> {
     Some(v)
 }
 
-pub const FAULT_CLASSES: [&str; 18] = ["btsd-retype", "missing-item", "extra-item", "ts-arity", "ipn-arity", "eid-extra", "eid-no-scheme", "scheme-unknown", "ipn-node0",
+pub const FAULT_CLASSES: [&str; 20] = ["indef-missing", "btsd-map", "btsd-retype", "missing-item", "extra-item", "ts-arity", "ipn-arity", "eid-extra", "eid-no-scheme", "scheme-unknown", "ipn-node0",
     "crc-length", "crc-presence", "uint-kind", "array-kind", "bstr-kind", "btsd", "no-break", "trailing-byte", "missing-item"];
 
 fn gen_c19(rng: &mut Rng, ctx: &mut Ctx, rep: &mut Report, emit: Emit) {
